@@ -58,6 +58,8 @@ def body_agree(kind: int, form: int, t: int, name: str, tail: str, port: int) ->
     e = _mk(cfg, form, typ, name, tail, port)
     q = rl.QuoteStub()
     q.install()
+    SP = 7071  # this server listens on a port that is not Gopher's default: "no port" means THIS port in every protocol
+    hx.SERVER_PORT = SP
     try:
         pr = rl.proto(kind, cfg)
         if kind in (2, 3):
@@ -69,6 +71,7 @@ def body_agree(kind: int, form: int, t: int, name: str, tail: str, port: int) ->
         tx, nx, target = rl.extract(kind, text)
     finally:
         q.uninstall()
+        hx.SERVER_PORT = 70
     hx.reach()
     pn = dl.PROTO_NAMES[kind]
     for (qa, qkw, qtok) in q.q:
@@ -82,7 +85,7 @@ def body_agree(kind: int, form: int, t: int, name: str, tail: str, port: int) ->
             hx.require(target is None, "C06:info-line-rendered-as-link:%s" % pn, lambda: repr(text))
         return True
     if kind == 0:
-        want = (e.selector, e.host if e.host is not None else "srv.example", str(e.port if e.port is not None else 70))
+        want = (e.selector, e.host if e.host is not None else "srv.example", str(e.port if e.port is not None else SP))
         hx.require(target == want, "C06:target-differs:%s" % pn, lambda: "entry=%r rendered=%r" % ((e.selector, e.host, e.port), text))
         return True
     if typ == "7" and kind in (2, 3):
@@ -111,7 +114,7 @@ def body_agree(kind: int, form: int, t: int, name: str, tail: str, port: int) ->
         hx.require(rl.unescape(target) == e.selector[4:], "C06:url-target-differs:%s" % pn, lambda: "selector=%r rendered=%r" % (e.selector, text))
     else:
         host = e.host if e.host is not None else "srv.example"
-        prt = e.port if e.port is not None else 70
+        prt = e.port if e.port is not None else SP
         pre = "gopher://%s:%d/" % (host, prt)
         wt = tok_of(typ + e.selector)
         hx.require(wt is not None and rl.unescape(target) == pre + wt, "C06:remote-target-differs:%s" % pn,
